@@ -215,6 +215,13 @@ def worker_shape(prog, an, rep):
         rep.check(ok, R, f.qname + ': job.status = type(err).__name__ on '
                   'every handled path', f.where(h), 'a failed job can be '
                   'recorded without its status', path=c.describe_path(path))
+        subs = [x for s in h.body for x in ast.walk(s)
+                if isinstance(x, ast.Subscript)]
+        rep.check(not subs, R, f.qname + ': the handler does no indexing '
+                  '(IndexError / KeyError would escape it)', f.where(h),
+                  'the handler evaluates %s, which can raise inside the '
+                  'except block and kill the worker thread' %
+                  [src(x) for x in subs][:2])
         allowed_calls = ('LOG.exception', 'LOG.info', 'LOG.error',
                          'LOG.warning', 'LOG.debug', 'str', 'type',
                          'isinstance')
